@@ -140,7 +140,8 @@ def _run_case(args):
         vio = [o.key for o in ctx.violations]
         err = None
     except AnalysisError as e:
-        vio, err = [], str(e)
+        vio = [o.key for o in ctx.violations]
+        err = None if vio else str(e)
     except Exception as e:  # a crash of the checker on a variant is a checker failure
         return (name, kind, "error", "internal error: %r" % e, [])
     if kind == "break":
